@@ -59,11 +59,12 @@ class SqlalchemyRender:
         # https://docs.sqlalchemy.org/en/14/faq/sqlexpressions.html#why-are-percent-signs-being-doubled-up-when-stringifying-sql-statements
         self.dialect = dialect(paramstyle="named")
 
-        if dialect_name == 'mssql':
+        # (decided by the dialect itself: a dialect class given instead of a name is set up like its name)
+        if self.dialect.name == 'mssql':
             # update version to MS_2008_VERSION for supports_multivalues_insert
             self.dialect.server_version_info = (10,)
             self.dialect._setup_version_attributes()
-        elif dialect_name == 'mysql':
+        elif self.dialect.name == 'mysql':
             # update version for support float cast
             self.dialect.server_version_info = (8, 0, 17)
 
